@@ -1348,7 +1348,7 @@ func init() {
 					imm := []int{0, 3, 245, 254, 255}
 					if r.Thorough() {
 						add(40, 4093)
-						timed, imm = seq(0, 70), seq(0, 255)
+						timed, imm = append(seq(0, 70), 168, 169, 170, 200, 255), seq(0, 255)
 					} else {
 						add(200, 300)
 						add(1000, 1050)
